@@ -30,8 +30,42 @@ def log(*a):
     print(*a, file=sys.stderr, flush=True)
 
 
+RUN_ID = "run_%d" % os.getpid()
+_run_dirs = set()
+
+
+def _cleanup_runs():
+    if os.environ.get("VERIF_KEEP") == "1":
+        return
+    for d in _run_dirs:
+        shutil.rmtree(d, ignore_errors=True)
+
+
+import atexit
+atexit.register(_cleanup_runs)
+
+
+def run_root(prop):
+    """Scratch root of THIS process for a property: concurrent runs of the same check (quick and thorough, a replay,
+    a mutant self-test) never share a directory. Removed at exit unless VERIF_KEEP=1; replay files live outside it."""
+    root = os.path.join(OUT, prop)
+    d = os.path.join(root, RUN_ID)
+    if d not in _run_dirs:
+        os.makedirs(d, exist_ok=True)
+        _run_dirs.add(d)
+        # leftovers of killed runs (older than 3 h)
+        try:
+            for x in os.listdir(root):
+                px = os.path.join(root, x)
+                if x.startswith("run_") and px != d and time.time() - os.path.getmtime(px) > 3 * 3600:
+                    shutil.rmtree(px, ignore_errors=True)
+        except OSError:
+            pass
+    return d
+
+
 def workdir(prop, sub):
-    d = os.path.join(OUT, prop, sub)
+    d = os.path.join(run_root(prop), sub)
     shutil.rmtree(d, ignore_errors=True)
     os.makedirs(d)
     return d
@@ -156,7 +190,10 @@ def build_harness(name, pkg, overlay_files, race=False, outdir=None):
     """Compile a test binary of package pkg (relative to the repo root) with harness files overlaid.
     overlay_files: {path relative to repo root: absolute source path}. The verifh helper package is
     always overlaid."""
-    outdir = outdir or os.path.join(OUT, "bin")
+    # binaries are private to this process as well (outdir names the property: .../out/<prop>/bin)
+    if outdir and os.path.basename(outdir) == "bin" and os.path.dirname(os.path.dirname(outdir)) == OUT:
+        outdir = os.path.join(run_root(os.path.basename(os.path.dirname(outdir))), "bin")
+    outdir = outdir or os.path.join(run_root("misc"), "bin")
     os.makedirs(outdir, exist_ok=True)
     rep = {}
     hdir = os.path.join(HARNESS, "verifh")
